@@ -177,6 +177,43 @@ def lattice_pairs(r, ext=True):
     return out
 
 
+def shared_object_pairs(r):
+    """unrelated F and G whose Meta configurations are built from the SAME Python objects (one json_key_to_field
+    dict, one Condition): F is loaded with keys only G knows, in both binding orders and both configuration styles"""
+    def cls(cid, fields, wiz, mod, inner=None):
+        return {'op': 'define', 'cid': cid, 'qn': cid, 'mod': mod, 'wiz': wiz, 'base': None, 'mro': [], 'base_qn': None,
+                'inner': inner, 'fields': fields, 'own_fields': fields, 'tag': 'define'}
+    none = {'ltr': None, 'dtr': None, 'raise': None, 'skipdef': None, 'rec': None}
+    out = []
+    for k in sorted(base.SHARED_MAPS):
+        tgt = sorted(set(base.SHARED_MAPS[k].values()))
+        for style in ('bind', 'inner'):
+            for g_bound_first in (False, True):
+                for with_cond in (False, True):
+                    meta = dict(none, jk2f={'obj': k, 'map': base.SHARED_MAPS[k]})
+                    if with_cond:
+                        meta['skip_if'] = {'obj': 11, 'cond': base.SHARED_CONDS[11]}
+                    ff = [[t, 'int', None] for t in tgt]
+                    gf = ff + [['extra_f', 'int', 0], ['z_val', 'int', 0]]
+                    keys = list(base.SHARED_MAPS[k])
+                    f_doc = dict({kk: i + 1 for i, kk in enumerate(keys)}, extra_f=9, z_val=4)
+                    g_doc = dict({kk: i + 5 for i, kk in enumerate(keys)}, extra_f=9, zVal=3)
+                    wiz = style == 'inner'
+                    dF, dG = cls(1, ff, wiz, 'a', meta if wiz else None), cls(2, gf, wiz, 'b', dict(meta) if wiz else None)
+                    bF = [] if wiz else [{'op': 'bind', 'cid': 1, 'meta': dict(meta), 'tag': 'bind'}]
+                    bG = [] if wiz else [{'op': 'bind', 'cid': 2, 'meta': dict(meta), 'tag': 'bind'}]
+                    useF = [{'op': 'load', 'cid': 1, 'attr': False, 'doc': f_doc, 'tag': 'load'},
+                            {'op': 'dump', 'attr': False, 'inst': {'c': 1, 'f': [[t, {'i': i}] for i, t in enumerate(tgt)]}, 'tag': 'dump'}]
+                    useG = [{'op': 'load', 'cid': 2, 'attr': False, 'doc': g_doc, 'tag': 'load'},
+                            {'op': 'dump', 'attr': False, 'inst': {'c': 2, 'f': [[f[0], {'i': i}] for i, f in enumerate(gf)]}, 'tag': 'dump'}]
+                    if wiz:
+                        h = ([dF, dG] if g_bound_first else [dF]) + useF + ([] if g_bound_first else [dG]) + useG
+                    else:
+                        h = [dF, dG] + bF + (bG if g_bound_first else []) + useF + ([] if g_bound_first else bG) + useG
+                    out.append((h, {2}))
+    return out
+
+
 def proj(h, G):
     return [o for o in h if base.op_class(o) in G]
 
@@ -348,6 +385,9 @@ def run(ctx):
     lat = lattice_pairs(rx)
     px.extend(lat)
     relx.extend(['lattice'] * len(lat))
+    sh = shared_object_pairs(rx)
+    px.extend(sh)
+    relx.extend(['shared_objects'] * len(sh))
     infx = check_pairs(ctx, px, 'c07x', model=False)
     for (h, G), rel, info in zip(px, relx, infx):
         ctx.count(1, key='x:' + base.history_text(h) + json.dumps(sorted(G)), nontrivial=True)
